@@ -38,6 +38,7 @@ type DMsg struct {
 	Ref   int    `json:"ref,omitempty"` // cancel: index of the message whose operation is cancelled (-1: unknown id)
 	Raw   string `json:"raw,omitempty"`
 	Gap   int    `json:"gap,omitempty"`
+	Twice bool   `json:"twice,omitempty"` // cancel: sent twice back to back
 }
 
 // DWrite is a write by the concurrent privileged writer.
@@ -81,6 +82,14 @@ func genC13(rng *rand.Rand, tier string) *DBPlan {
 			switch m.Kind {
 			case "cancel":
 				m.Ref = rng.IntN(i+1) - 1
+				// prefer an earlier subscription as target
+				for j := i - 1; j >= 0; j-- {
+					if (msgs[j].Kind == "sub" || msgs[j].Kind == "qsub") && rng.IntN(3) != 0 {
+						m.Ref = j
+						break
+					}
+				}
+				m.Twice = rng.IntN(3) == 0
 			case "raw":
 				raws := []string{"", "|", "||", "x|", "x|get", "x|get|", "x|unknown|y", "a|b|c|d|e", "\x00\xff|get|\x00", "x|create|k", "x|insert|", strings.Repeat("|", 40), "x|cancel", "|cancel", "x|qsub|query testdb: where", "x|update|testdb:json/a|"}
 				m.Raw = raws[rng.IntN(len(raws))]
@@ -244,6 +253,12 @@ func execC13(p *DBPlan, rc *simkit.RunCtx) {
 				cs.reqs[op] = rr
 				cs.order = append(cs.order, op)
 				cs.api.Handle([]byte(msg))
+				if m.Kind == "cancel" && m.Twice {
+					if t := cs.reqs[rr.Key]; t != nil {
+						t.Cancels++
+					}
+					cs.api.Handle([]byte(msg))
+				}
 			}
 		}()
 	}
@@ -413,11 +428,10 @@ func checkC13(p *DBPlan, rc *simkit.RunCtx) {
 			if req.Kind == "qsub" && strings.HasPrefix(req.Key, "query testdb:") && !strings.Contains(req.Key, "where") && !strings.Contains(req.Key, "(") {
 				// every matching write that began after the query part was reported done and returned before the
 				// cancel must be notified
+				// (the first reply shows that the handler is past registering the subscription)
 				var doneSeq uint64
-				for _, r := range reps {
-					if r.Type == "done" && doneSeq == 0 {
-						doneSeq = r.Seq
-					}
+				if len(reps) > 0 {
+					doneSeq = reps[0].Seq
 				}
 				prefix := strings.TrimPrefix(req.Key, "query ")
 				if doneSeq != 0 {
@@ -429,12 +443,12 @@ func checkC13(p *DBPlan, rc *simkit.RunCtx) {
 						for _, r := range reps {
 							// (hashmap hands out the stored object: a put that is read from the feed after a later
 							// delete is announced as del, so any notification for the key counts)
-							if (r.Type == "upd" || r.Type == "new" || r.Type == "del") && r.Key == w.Key && r.Seq > w.Inv {
+							if (r.Type == "upd" || r.Type == "new" || r.Type == "del" || r.Type == "ok") && r.Key == w.Key && r.Seq > w.Inv {
 								n++
 							}
 						}
 						if n == 0 {
-							rc.Fail("C13.notification-lost", "a matching change made after the query part of a qsub was done was not notified", fmt.Sprintf("conn %d op %s (%q): write to %s", ci, op, req.Key, w.Key))
+							rc.Fail("C13.notification-lost", "a matching change made while a qsub was active was neither part of the query replies nor notified", fmt.Sprintf("conn %d op %s (%q): write to %s", ci, op, req.Key, w.Key))
 							return
 						}
 						rc.Probe("qsub-notification-checked")
